@@ -303,6 +303,7 @@ static int take_choice(int n, int kind, int altcost)
         X->cost[rec_len] = (uint8_t) altcost;
         X->kind[rec_len] = (uint8_t) kind;
         ++rec_len;
+        X->nchoices = rec_len;    // kept current so that a crashing execution can be replayed
         ++X->real_alts;
     }
     else
